@@ -348,6 +348,7 @@ func init() {
 			"0-3 stub signers x 0-3 known stub verifiers (accept/reject/checksum), duplicate keys, same name with different hash, ambiguous lists, " +
 			"custom Verifiers (error / mismatching); hand-built signature blocks (duplicate lines, malformed lines, 99/100/101 lines); byte-level " +
 			"mutations of signed messages (every position of short notes in the thorough tier); real verifier/signer key strings and mutations of them; " +
+			"signature lines whose base64 field is valid but not canonical (non-zero unused bits in the last digit: hash+signature of 5..12, 68 bytes), opened, the returned note re-signed, the result opened; " +
 			"a fixed sweep of signature blocks with a very long line (4 KiB .. 128 KiB, mostly 65534..65538 bytes; long signature or long name; known/unknown; short lines before and after); " +
 			"non-trivial = derived from a signed or hand-built message, or a key string at most a few mutations from valid; distinct by op line"})
 }
@@ -831,6 +832,8 @@ func genC07(g *Gen, n int) {
 	end := g.st.Ops + n
 	rl := c07Fork(r, 0xc07a) // the stream of the long-line sweep (util_c07long.go), forked: the stream below is unchanged
 	defer c07GenLong(g, rl)
+	rsp := c07Fork(r, 0xc07c) // the stream of the non-canonical base64 spellings (util_c07spell.go), forked likewise
+	defer c07GenSpell(g, rsp, n/150+40)
 	// fixed edge cases first
 	for _, nm := range append(append([]string{}, c07Names...), c07BadNames...) {
 		g.Emit("note.isvalidname "+hx(nm), true, "name")
